@@ -135,7 +135,8 @@ def check_cfg(ctx, fx, cfg):
             if not long_lived or o2["def"] == adt:
                 continue
             for a2 in o2["atoms"]:
-                if any(needle in p2 for p2 in a2.get("paths", [])):
+                # (a wrapper type around the context's child table is part of that table: R05.1 judges what it may hold)
+                if any(needle in p2 and "/Context.children/" not in p2[:p2.index(needle) + 1] + "/" and not p2[:p2.index(needle)].endswith("/Context.children") for p2 in a2.get("paths", [])):
                     return True
         return False
     for o in fx.owns:
